@@ -37,7 +37,31 @@ def make_case(spec, i):
     roots = [[h, h] for h in range(nres)]
     for h, res in roots:
         ms.add_root(h, res)
-    if r.random() < 0.4:
+    setup = {}
+    x0 = r.random()
+    if spec["stratum"] == "missing" and x0 < 0.3:
+        # the object was constructed with data= on a resource that does not exist
+        data = g.shape(info.kind, 2)
+        setup["root_data"] = {"0": data}
+        ms.logical[0] = data
+    elif spec["stratum"] == "missing" and x0 < 0.6 and info.backend == "json":
+        # the file existed, was loaded, and has been deleted since: the object still holds its content
+        content = g.shape(info.kind, 2)
+        inits[0] = content
+        ms = ModelState(info.kind, inits)
+        for h, res in roots:
+            ms.add_root(h, res)
+        setup["pre"] = [{"op": "call", "h": 0, "path": [], "args": []}, {"delete": 0}]
+        ms.truth[0] = MISSING
+    elif spec["stratum"] == "existing" and x0 < 0.35:
+        # the handle has seen the content once; afterwards the file was rewritten with the same data in
+        # another key order (and the handle made an earlier write of its own)
+        pre = [{"op": "call", "h": 0, "path": [], "args": []}]
+        if r.random() < 0.5:
+            pre += gen.gen_program(g, ms, 2, p_read=0.0, depth=2, handles=[0])
+        pre.append({"reorder": 0})
+        setup["pre"] = pre
+    elif r.random() < 0.4:
         roots.append([nres, 0])  # a second object on the first resource
         ms.add_root(nres, 0)
     next_id = len(roots)
@@ -76,9 +100,11 @@ def make_case(spec, i):
         steps.append({"exit": 1})
         ms.exit()
         depth -= 1
-    return {"cls": info.name, "cfg": spec["cfg"], "res": inits, "roots": roots, "steps": steps,
+    case = {"cls": info.name, "cfg": spec["cfg"], "res": inits, "roots": roots, "steps": steps,
             "stratum": spec["stratum"],
             "oracle": {"results": True, "resource_each_step": True, "final_call": True}}
+    case.update(setup)
+    return case
 
 
 class ReadOnlySession(Session):
@@ -105,13 +131,36 @@ class ReadOnlySession(Session):
 
     def run(self):
         json_backend = self.info.backend == "json"
+        # ---- un-monitored preparation phase (may write)
+        self._apply_cfg()
+        for hid, res in self.case["roots"]:
+            self._new_root(hid, res)
+        for st in self.case.get("pre", []):
+            if "delete" in st:
+                self.resources[st["delete"]].remove()
+                self.model.truth[st["delete"]] = catalog.MISSING
+            elif "reorder" in st:
+                cur = self.resources[st["reorder"]].probe()
+                if cur not in (catalog.MISSING, catalog.UNPARSABLE):
+                    self.resources[st["reorder"]].outside_write(_reordered(cur), bump=True)
+            else:
+                self.do_step(st)
+        self._prepared = True
         before = [(r.raw(), r.write_count()) for r in self.resources]
         snaps = [fsmon.stat_snapshot(r.path) for r in self.resources] if json_backend else None
         listing = sorted(os.listdir(self.scratch)) if json_backend else None
         if json_backend:
             fsmon.arm(self.scratch)
         try:
-            super().run()
+            try:
+                for i, step in enumerate(self.case["steps"]):
+                    self.step_index = i
+                    self.do_step(step)
+                self.step_index = len(self.case["steps"])
+                self.finish()
+            finally:
+                self.unwind()
+                self._restore_cfg()
         finally:
             events = fsmon.disarm() if json_backend else []
             if hasattr(self, "_aux_dir"):
@@ -137,6 +186,14 @@ class ReadOnlySession(Session):
                               f"{fsmon.stat_snapshot(r.path)}")
             if sorted(os.listdir(self.scratch)) != listing:
                 self.viol("dir_changed", f"directory content changed: {listing} -> {sorted(os.listdir(self.scratch))}")
+
+
+def _reordered(x):
+    if isinstance(x, dict):
+        return {k: _reordered(x[k]) for k in reversed(list(x))}
+    if isinstance(x, list):
+        return [_reordered(v) for v in x]
+    return x
 
 
 def _first_op(case):
